@@ -165,3 +165,6 @@ def run(ctx):
     serde_complete(ctx, P, "R5", ["grafeo_engine::database::Snapshot", "grafeo_engine::database::SnapshotNode",
                                   "grafeo_engine::database::SnapshotEdge", "grafeo_common::types::value::Value",
                                   "grafeo_adapters::storage::wal::record::WalRecord"])
+    # ---- R6 (= C14-R2b) what the copy paths enumerate is the primary table
+    from .c14 import enumerators_use_primary
+    enumerators_use_primary(ctx, P, ctx.effects(), "R6")
